@@ -402,9 +402,11 @@ def checkout(  # noqa: PLR0913
 
     if isinstance(fs, LocalFileSystem):
         # NOTE: the saved link record is a token over the file paths as they
-        # are spelled here, in the diff and by the later walk of the
-        # workspace, so spell the workspace path one way
-        path = os.path.normpath(path)
+        # are spelled here, in the diff and by the later walks of the
+        # workspace (State.get_unused_links() spells them absolutely), and
+        # the parent of a bare relative name is not a usable path, so spell
+        # the workspace path one way
+        path = os.path.abspath(path)
 
     diff = _diff(
         path,
